@@ -25,7 +25,7 @@ SCALAR_ERRORS = [True, 1, -32000, 1.5, "e", "code", "xcodex", "message", [1], ["
                  {"a": 1, "b": 2}, {"message": "m", "data": 1}]
 ENVELOPES = ["2.0-error-only", "2.0-both", "1.0-null-result", "1.0-with-result"]
 IDS = [1, None]
-ENTRIES = ["check_for_errors", "call", "notify", "multicall-0", "multicall-1", "multicall-2", "multicall-iter-1"]
+ENTRIES = ["check_for_errors", "check_for_errors/ordered", "check_for_errors/subclass", "call", "notify", "multicall-0", "multicall-1", "multicall-2", "multicall-iter-1"]
 
 
 def error_objects():
@@ -65,11 +65,23 @@ def classify(err):
     return ("any-protocol-error", None)
 
 
+def _retype(v, ordered):
+    if isinstance(v, dict):
+        items = [(k, _retype(x, ordered)) for k, x in v.items()]
+        return gen.OrderedDict(items) if ordered else gen.MyDict(items)
+    if isinstance(v, list):
+        return [_retype(x, ordered) for x in v] if ordered else gen.MyList(_retype(x, ordered) for x in v)
+    return v
+
+
 def invoke(entry, reply):
     """Runs one client entry point on a canned reply; returns ('ret', value) or ('exc', exception)."""
     try:
         if entry == "check_for_errors":
             return ("ret", J.check_for_errors(reply))
+        if entry.startswith("check_for_errors/"):
+            # the same reply as parsed by a JSON backend that builds mapping/sequence subclasses (object_pairs_hook=OrderedDict, ...)
+            return ("ret", J.check_for_errors(_retype(reply, entry.endswith("ordered"))))
         if entry in ("call", "notify"):
             t = CannedTransport([json.dumps(reply)])
             p = jsonrpclib.ServerProxy("http://h/", transport=t)
@@ -111,7 +123,7 @@ def check_error(case):
     kind, code = classify(err)
     out = Out(cls="%s/%s" % (kind, entry.split("-")[0]))
     how, val = invoke(entry, reply)
-    site = entry.split("-")[0]
+    site = entry.split("-")[0].split("/")[0]
     if how == "ret":
         return out.bad(
             "C06/%s/error-swallowed" % site,
@@ -128,7 +140,7 @@ def check_error(case):
         if type(ex) is not J.ProtocolError:
             return out.bad("C06/%s/predefined-code-not-plain-ProtocolError" % site, "%s on %r raised %r" % (entry, reply, ex))
         a = ex.args[0] if ex.args else None
-        if not (isinstance(a, tuple) and len(a) == 2 and gen.same(a[0], code)):
+        if not (isinstance(a, tuple) and len(a) == 2 and gen.same(gen.normalise(a[0]), code)):
             return out.bad("C06/%s/protocol-error-args" % site, "%s on %r raised ProtocolError%r" % (entry, reply, ex.args))
         if "message" in err and not gen.same(a[1], err["message"]):
             return out.bad("C06/%s/protocol-error-message" % site, "%s on %r raised ProtocolError%r" % (entry, reply, ex.args))
@@ -140,7 +152,7 @@ def check_error(case):
             )
         a = ex.args[0] if ex.args else None
         data = err.get("data")
-        if not (isinstance(a, tuple) and len(a) == 3 and gen.same(a[0], code) and gen.same(a[2], data)):
+        if not (isinstance(a, tuple) and len(a) == 3 and gen.same(gen.normalise(a[0]), code) and gen.same(gen.normalise(a[2]), data)):
             return out.bad("C06/%s/app-error-args" % site, "%s on %r raised AppError%r" % (entry, reply, ex.args))
         if "message" in err and not gen.same(a[1], err["message"]):
             return out.bad("C06/%s/app-error-message" % site, "%s on %r raised AppError%r" % (entry, reply, ex.args))
@@ -148,7 +160,7 @@ def check_error(case):
             d = ex.data()
         except Exception as ex2:
             return out.bad("C06/%s/app-error-data-accessor" % site, "AppError.data() raised %r" % (ex2,))
-        if not gen.same(d, data):
+        if not gen.same(gen.normalise(d), data):
             return out.bad("C06/%s/app-error-data-accessor" % site, "AppError.data() = %r, expected %r" % (d, data))
     return out
 
@@ -189,15 +201,15 @@ def check_success(case):
     else:
         reply = {"id": 1, "result": v, "error": None}
     out = Out(cls="success/%s" % entry.split("-")[0])
-    site = entry.split("-")[0]
+    site = entry.split("-")[0].split("/")[0]
     how, val = invoke(entry, reply)
     if how == "exc":
         return out.bad(
             "C06/%s/success-raises-%s" % (site, type(val).__name__),
             "%s on reply %r raised %r" % (entry, reply, val),
         )
-    if entry == "check_for_errors":
-        if val is not reply and not gen.same(val, reply):
+    if entry.startswith("check_for_errors"):
+        if val is not reply and not gen.same(gen.normalise(val), reply):
             return out.bad("C06/check_for_errors/success-changed", "returned %r for %r" % (val, reply))
     elif entry == "notify":
         if val is not None:
@@ -297,8 +309,8 @@ LEGS = {"errors": leg_errors, "success": leg_success, "after-fault": leg_after_f
 META = {
     "technique": "bounded-exhaustive enumeration of reply objects x client entry points against a reference error classifier",
     "rule": "error member ranges over scalar/array/single-entry shapes and over every object of the grammar code(22) x message(5) x "
-    "trace(2) x data(5); x 4 envelope forms x id {1,null} x 7 entry points; success side: every JSON value (depth<=1 quick, <=2 thorough) x "
-    "3 envelope forms x 7 entry points; after-fault: an error reply following a truncated / non-JSON / non-200 exchange (bodies larger than the read size) on the "
+    "trace(2) x data(5); x 4 envelope forms x id {1,null} x 9 entry points (check_for_errors on dict replies, on OrderedDict replies and on dict/list-subclass replies, call, notification, MultiCall access at 3 positions, iteration); success side: every JSON value (depth<=1 quick, <=2 thorough) x "
+    "3 envelope forms x 9 entry points; after-fault: an error reply following a truncated / non-JSON / non-200 exchange (bodies larger than the read size) on the "
     "same proxy through the real transport over the in-memory network; all cases are non-trivial (each reaches a classification branch); distinct by encoded case",
     "bounds": {"quick": {"value_depth": 1, "batch_len": 3}, "thorough": {"value_depth": "1 exhaustively, plus depth 2 up to 60000 values in simplest-first order", "batch_len": 3}},
     "assumptions": [
